@@ -81,20 +81,39 @@ def decorate(w, wn, s, rnd):
 
 
 def exotic_controls(w, wn, s, rnd):
-    """controls the textual control representation of to_dict cannot carry (open known findings); returns the tags of the ones
-    that were added"""
+    """at most one control per model that the textual control representation of to_dict cannot carry (open known findings) or
+    that it once could not (fixed ones); returns the tag of the one that was added"""
     C = w.network.controls
-    tags = []
     pipes = [l["name"] for l in s["links"] if l["type"] == "pipe"]
-    if len(pipes) > 1 and rnd.random() < 0.12:
-        wn.add_control("ctl_flow", C.Control(C.ValueCondition(wn.get_link(pipes[0]), "flow", ">", 0.5),
-                                             C.ControlAction(wn.get_link(pipes[1]), "status", w.network.LinkStatus.Closed)))
-        tags.append("[simple control conditioned on a link]")
-    if pipes and rnd.random() < 0.12:
+    juncs = [n["name"] for n in s["nodes"] if n["type"] == "J"]
+    tanks = [n["name"] for n in s["nodes"] if n["type"] == "T"]
+    if not pipes or not juncs or rnd.random() >= 0.4:
+        return []
+    closed = C.ControlAction(wn.get_link(pipes[0]), "status", w.network.LinkStatus.Closed)
+    kind = rnd.choice(["link", "once", "head", "ge", "after", "aboc", "space"])
+    if kind == "link":
+        wn.add_control("ctl_flow", C.Control(C.ValueCondition(wn.get_link(pipes[-1]), "flow", ">", 0.5), closed))
+        return ["[simple control conditioned on a link]"]
+    if kind == "once":
         wn.add_control("rule_once", C.Rule(C.TimeOfDayCondition(wn, ">=", 6 * 3600, repeat=False),
                                            [C.ControlAction(wn.get_link(pipes[0]), "status", w.network.LinkStatus.Open)], name="rule_once"))
-        tags.append("[rule with a clock-time condition that does not repeat]")
-    return tags
+        return ["[rule with a clock-time condition that does not repeat]"]
+    if kind == "head":
+        wn.add_control("ctl_head", C.Control(C.ValueCondition(wn.get_node(rnd.choice(tanks or juncs)), "head", ">", 46.0), closed))
+        return ["[simple control conditioned on a node's head]"]
+    if kind == "ge":
+        wn.add_control("ctl_ge", C.Control(C.ValueCondition(wn.get_node(juncs[0]), "pressure", ">=", 50.0), closed))
+        return ["[simple control with the relation >=]"]
+    if kind == "after":
+        wn.add_control("ctl_after", C.Control(C.SimTimeCondition(wn, ">", 3600), closed))
+        return ["[simple time control with the relation >]"]
+    if kind == "aboc":
+        a = C.ValueCondition(wn.get_node((tanks or juncs)[0]), "level" if tanks else "pressure", ">=", 7.0)
+        cond = C.OrCondition(C.AndCondition(a, C.SimTimeCondition(wn, ">", 3600)), C.ValueCondition(wn.get_link(pipes[0]), "status", "=", 1))
+        wn.add_control("rule_aboc", C.Rule(cond, [closed], name="rule_aboc"))
+        return ["[rule whose condition is (A AND B) OR C]"]
+    wn.add_control("rule with space", C.Rule(C.SimTimeCondition(wn, ">=", 3600), [closed], name="rule with space"))
+    return ["[rule whose name has a space]"]
 
 
 def norm(d):
